@@ -778,18 +778,39 @@ def spell_name(rng, v):
 REF_GROUPS = ["note", "lower-alpha", "nb 1", "N", "Émile", "n", "smith"]
 
 
-def refgroup(rng, W, p=0.5):
+# A name DEFINED in two groups (<ref name="a">x</ref> .. <ref name="a" group="note">y</ref>: two footnotes) is ordinary content
+# too, but /repo HEAD keys its table of definitions by name only and drops the text of the second one (word loss, C07) - see
+# /verif/fixes/C07-ref-name-per-group.diff.  The ordinary grammar (space 2) writes such pairs only when this is switched on
+# (switch it on together with the fix); space 1 has them regardless.
+GROUPED_REDEFINITION = False
+
+
+def refgroup(rng, W, p=0.5, other_than=None):
     """the group of one <ref>: '' (absent, probability 1-p) or 'group=..' with the document's first group, its second group or
-    the empty string (absent, to a reader), quoted like a name; the two groups are drawn once per document"""
+    the empty string (absent, to a reader), quoted like a name; the two groups are drawn once per document.
+    other_than: a group attribute text - the result then names a different group (absent and empty are the same group)"""
+    if other_than is not None:
+        for _ in range(50):
+            x = refgroup(rng, W, p)
+            if group_value(x) != group_value(other_than):
+                return x
+        p = 1.0
     if p <= 0 or rng.random() >= p:
         return ""
     if not W.groups:
         W.groups = rng.sample(REF_GROUPS, 2)
     g = rng.choice([W.groups[0], W.groups[0], W.groups[1], W.groups[1], ""])
+    if other_than is not None:
+        g = [x for x in W.groups if x != group_value(other_than)][0]
     if not g:
         return "group=%s" % rng.choice(['""', "''"])
     k = "group" if rng.random() < 0.95 else rng.choice(["GROUP", "Group"])
     return "%s=%s" % (k, spell_name(rng, g))
+
+
+def group_value(group_att):
+    """'group="note"' -> 'note'; '' -> ''"""
+    return group_att.partition("=")[2].strip("\"'") if group_att else ""
 
 
 def ref_attrs(rng, name_att, group_att):
@@ -850,15 +871,22 @@ def refname_doc(rng, W, ordinary=False):
     n = rng.randint(2, 6)
     kinds = ["def", "use"] + [rng.choice(["def", "use", "use", "pair"]) for _ in range(n - 2)]
     rng.shuffle(kinds)
-    if ordinary:          # a name is defined once (a second definition of the same name is merged by design)
+    if ordinary:          # a name is defined once (a second definition of the same name is merged by design) ...
         kinds = ["def"] + ["use"] * (n - 1)
+        if GROUPED_REDEFINITION and pg > 0 and rng.random() < 0.4:      # ... per group
+            kinds[1] = "def2"
         rng.shuffle(kinds)
     out = []
+    defgroup = None
     for k in kinds:
         v = base if rng.random() < 0.5 else rng.choice(vs)
         att = ("%s=%s" if ordinary or rng.random() < 0.85 else rng.choice(["%s = %s", "%s= %s"])) % (
             "name" if ordinary or rng.random() < 0.9 else rng.choice(["NAME", "Name"]), spell_name(rng, v))
-        att = ref_attrs(rng, att, refgroup(rng, W, pg))       # the group of THIS occurrence: absent / first / second / empty
+        ga = refgroup(rng, W, pg, other_than=defgroup if k.startswith("def") else None)     # the group of THIS occurrence
+        if k.startswith("def"):
+            defgroup = ga
+            k = "def"
+        att = ref_attrs(rng, att, ga)
         if k == "def":
             r = "<ref%s>%s</ref>" % (att, refcontent(rng, W) if rng.random() < 0.5 else W.some(rng, 1, 3))
         elif k == "use":
